@@ -53,6 +53,7 @@ type modSet struct {
 	heapAll  bool
 	heapKeys map[string]bool
 	seenLits map[*ast.FuncLit]bool
+	counts   map[string]bool // ghost call counters the code may increment
 }
 
 // findLocalLit finds the function literal a local identifier of the unit is bound to.
@@ -87,13 +88,18 @@ func (fr *Frame) rootBody() *ast.BlockStmt {
 
 func (fr *Frame) collectMods(nodes []ast.Node, declaredInside map[*types.Var]bool) *modSet {
 	x := fr.x
-	ms := &modSet{vars: map[*types.Var]bool{}, heapKeys: map[string]bool{}}
+	ms := &modSet{vars: map[*types.Var]bool{}, heapKeys: map[string]bool{}, counts: map[string]bool{}}
 	var markLhs func(l ast.Expr)
 	markLhs = func(l ast.Expr) {
 		switch n := ast.Unparen(l).(type) {
 		case *ast.Ident:
 			if o, ok := fr.info.ObjectOf(n).(*types.Var); ok {
 				ms.vars[o] = true
+				if x.eng.isCellVar(o) {
+					for _, k := range x.cellKeys(o) {
+						ms.heapKeys[k] = true
+					}
+				}
 			}
 		case *ast.SelectorExpr:
 			sel := fr.info.Selections[n]
@@ -150,9 +156,7 @@ func (fr *Frame) collectMods(nodes []ast.Node, declaredInside map[*types.Var]boo
 				if s.Op == token.AND {
 					// &x passed somewhere: x may be written through the pointer
 					if id, ok := s.X.(*ast.Ident); ok {
-						if o, ok := fr.info.ObjectOf(id).(*types.Var); ok {
-							ms.vars[o] = true
-						}
+						markLhs(id)
 					} else if _, ok := s.X.(*ast.SelectorExpr); ok {
 						markLhs(s.X)
 					}
@@ -252,6 +256,9 @@ func (fr *Frame) callMods(c *ast.CallExpr, ms *modSet, markLhs func(ast.Expr)) {
 				for v := range sm.vars {
 					ms.vars[v] = true
 				}
+				for k := range sm.counts {
+					ms.counts[k] = true
+				}
 				return
 			}
 		}
@@ -262,6 +269,9 @@ func (fr *Frame) callMods(c *ast.CallExpr, ms *modSet, markLhs func(ast.Expr)) {
 		return
 	}
 	full := fn.FullName()
+	if strings.Contains(full, "gocache/v3/cache.CacheInterface") && strings.HasSuffix(full, ".Set") {
+		ms.counts["cache.Set"] = true
+	}
 	if lm, ok := libMods[full]; ok {
 		lm(fr, c, ms, markLhs)
 		return
@@ -273,6 +283,9 @@ func (fr *Frame) callMods(c *ast.CallExpr, ms *modSet, markLhs func(ast.Expr)) {
 		return
 	}
 	if ct := x.eng.findContract(fn); ct != nil && !ct.InlineAtCallers {
+		if ct.Counts != "" {
+			ms.counts[ct.Counts] = true
+		}
 		if !ct.ModifiesSet {
 			return
 		}
@@ -294,6 +307,9 @@ func (fr *Frame) callMods(c *ast.CallExpr, ms *modSet, markLhs func(ast.Expr)) {
 		if sm.heapAll {
 			ms.heapAll = true
 		}
+		for k := range sm.counts {
+			ms.counts[k] = true
+		}
 		for k := range sm.heapKeys {
 			ms.heapKeys[k] = true
 		}
@@ -308,11 +324,30 @@ func (fr *Frame) havocMods(st *State, ms *modSet) {
 	if _, ok := st.ghost["now"]; ok || true {
 		x.clockRead(st)
 	}
+	// ghost call counters only grow
+	var cks []string
+	for k := range st.ghost {
+		if strings.HasPrefix(k, "count:") {
+			cks = append(cks, k)
+		}
+	}
+	sort.Strings(cks)
+	for _, k := range cks {
+		if ms.counts != nil && !ms.counts[strings.TrimPrefix(k, "count:")] {
+			continue
+		}
+		n := x.u.fresh("cnt", "Int")
+		x.u.fact("(>= " + n + " " + st.ghost[k].T + ")")
+		st.ghost[k] = Val{T: n, S: "Int"}
+	}
 	for o := range ms.vars {
 		if cur, ok := st.vars[o]; ok {
 			nv := x.havocVal(o.Name(), o.Type())
-			_ = cur
-			st.vars[o] = nv
+			if x.eng.isCellVar(o) {
+				x.storeCell(st, cur, o.Type(), nv)
+			} else {
+				st.vars[o] = nv
+			}
 		}
 	}
 	if ms.heapAll {
@@ -567,6 +602,16 @@ func (fr *Frame) rangeStmt(st *State, n *ast.RangeStmt, label string) flow {
 		return fr.rangeUnsupported(st, n, label, "range over "+ct.String())
 	}
 	coll = x.bind(coll, "rng")
+	if n.Tok == token.DEFINE {
+		// Go < 1.22: one instance of each range variable per loop
+		for _, e := range []ast.Expr{n.Key, n.Value} {
+			if id, ok := e.(*ast.Ident); ok && id.Name != "_" {
+				if o, ok := fr.info.Defs[id].(*types.Var); ok && x.eng.isCellVar(o) {
+					x.declVar(st, o, x.zeroVal(o.Type()))
+				}
+			}
+		}
+	}
 	iv := x.u.fresh("$i", "Int")
 	x.u.fact("(= " + iv + " 0)")
 	fr.loops = append(fr.loops, &loopCtx{i: iv, entry: st.clone()})
@@ -630,13 +675,13 @@ func (fr *Frame) rangeStmt(st *State, n *ast.RangeStmt, label string) flow {
 		x.u.gfact(exitSt.pc, fmt.Sprintf("(forall ((%s %s)) (=> (and (select %s %s) %s) (select %s %s)))", q, ks, dom0, q,
 			x.mapHas(head, coll, Val{T: q, S: ks}), visitedH, q))
 		if keyObj != nil {
-			bodySt.vars[keyObj] = Val{T: k.T, S: k.S, Ty: keyObj.Type()}
+			x.setVar(bodySt, keyObj, Val{T: k.T, S: k.S, Ty: keyObj.Type()})
 		}
 		if valObj != nil {
 			v := Val{T: fmt.Sprintf("(select (select %s %s) %s)", x.getHeap(head, val), coll.T, k.T), S: x.u.sortOf(mt.Elem()), Ty: valObj.Type()}
 			v = x.bind(v, valObj.Name())
 			x.emitTypeFact(head, v)
-			bodySt.vars[valObj] = v
+			x.setVar(bodySt, valObj, v)
 		}
 		bodySt.ghost["$visited"] = Val{T: x.bind(Val{T: "(store " + visitedH + " " + k.T + " true)", S: head.ghost["$visited"].S}, "$visited").T, S: head.ghost["$visited"].S}
 		bodySt.ghost["$key"] = k
@@ -644,12 +689,12 @@ func (fr *Frame) rangeStmt(st *State, n *ast.RangeStmt, label string) flow {
 		bodySt.pc = x.namePC(x.and(head.pc, "(< "+ih+" "+count+")"))
 		exitSt.pc = x.namePC(x.and(head.pc, "(>= "+ih+" "+count+")"))
 		if keyObj != nil {
-			bodySt.vars[keyObj] = Val{T: ih, S: "Int", Ty: keyObj.Type()}
+			x.setVar(bodySt, keyObj, Val{T: ih, S: "Int", Ty: keyObj.Type()})
 		}
 		if valObj != nil && coll.S != "Int" {
 			v := x.bind(x.indexVal(head, coll, Val{T: ih, S: "Int"}, true), valObj.Name())
 			v.Ty = valObj.Type()
-			bodySt.vars[valObj] = v
+			x.setVar(bodySt, valObj, v)
 		}
 	}
 	bodySt0 := bodySt.clone()
@@ -714,6 +759,8 @@ func (fr *Frame) atHooks(st *State, s ast.Stmt) {
 		key = fr.src(n)
 	case *ast.IncDecStmt:
 		key = fr.src(n)
+	case *ast.RangeStmt, *ast.ForStmt:
+		key = fr.loopKey(s)
 	default:
 		return
 	}
